@@ -2,6 +2,7 @@
 C03 — no operation is lost, duplicated or left stranded.
 -/
 import DesyncModel.Spec
+import DesyncModel.Tables.FutureDrop
 import DesyncModel.Tables.Push
 import DesyncModel.Tables.Pool
 
